@@ -238,6 +238,51 @@ def run(rep: common.Report, tier: str, seed: int):
         cases.append({'kind': 'init', 'writer': 'UTrenchWriter' if u else 'TrenchWriter',
                       'arg': 'single column' if not isinstance(arg, list) else describe(pool, [('x', arg)])[0][-1]})
         hist['init'] += 1
+    # writers constructed from a list the caller keeps, then grown through their own append / extend: the caller's list is
+    # left as it was, the writer holds the given objects followed by the added ones, a second writer built from the same list
+    # does not see them (aliasing is observed, not modelled)
+    from femto.writer import MarkerWriter, NasuWriter, WaveguideWriter
+    wcls = {'KTc': TrenchWriter, 'KUtc': UTrenchWriter, 'KWg': WaveguideWriter, 'KNwg': NasuWriter, 'KMk': MarkerWriter}
+
+    def flat_ids(x):
+        return [i for v in x for i in flat_ids(v)] if isinstance(x, list) else [id(x)]
+    for _ in range(60 if quick else 600):
+        pool = Pool()
+        kind = rng.choice(KINDS)
+        given = [pool.make(kind) for _ in range(rng.randint(0, 3))]
+        if kind == 'KWg' and rng.random() < 0.4:
+            given.append([pool.make(kind), pool.make(kind)])
+        snap = snapshot(given)
+        added, calls = [], []
+        with pgm.quiet():
+            w1 = wcls[kind](given, filename='w.pgm')
+            for _ in range(rng.randint(1, 3)):
+                if rng.random() < 0.5:
+                    o = pool.make(kind)
+                    w1.append(o)
+                    added.append(o)
+                    calls.append('append')
+                else:
+                    lst = [pool.make(kind) for _ in range(rng.randint(0, 2))]
+                    lsnap = snapshot(lst)
+                    w1.extend(lst)
+                    added.extend(lst)
+                    calls.append('extend')
+                    if snapshot(lst) != lsnap:
+                        snap = None
+            w2 = wcls[kind](given, filename='w2.pgm')
+        bad = []
+        if snap is None or snapshot(given) != snap:
+            bad.append('callers-list-modified')
+        if flat_ids(w1.obj_list) != flat_ids(given) + flat_ids(added) if snap is not None and snapshot(given) == snap else False:
+            bad.append('collection')
+        if w2.obj_list is w1.obj_list or (snap is not None and snapshot(given) == snap and flat_ids(w2.obj_list) != flat_ids(given)):
+            bad.append('second-writer-shares-the-collection')
+        hist['kept-list'] = hist.get('kept-list', 0) + 1
+        if bad:
+            rep.violation('C16/writer-from-kept-list/' + '+'.join(bad),
+                          f'{wcls[kind].__name__} built from a list the caller keeps, then {calls}: ' + '+'.join(bad),
+                          {'input': {'writer': wcls[kind].__name__, 'given': len(given), 'calls': calls}})
     fails = common.run_model('C16', 'Harness.C16', 'C16.case', 'C16.failing', lits, shard=150, extra_imports=IMPORTS)
     for idx, code in fails:
         c = cases[idx]
@@ -256,7 +301,7 @@ def run(rep: common.Report, tier: str, seed: int):
         seen.add(h)
         nt += c['kind'] == 'init' or nontrivial(c['ops'])
     rep.coverage.update({
-        'evaluations': len(cases), 'distinct_nontrivial': nt,
+        'evaluations': len(cases) + hist.get('kept-list', 0), 'distinct_nontrivial': nt,
         'rule': 'case = history of Device.append/extend and writer append/extend calls on real objects (5 kinds, subclasses, foreign '
                 'values, groups, nested groups) or a TrenchWriter/UTrenchWriter constructor call; non-trivial: >= 2 kinds, a group or a foreign value',
         'samples': cases[:2] + cases[-1:], 'traces_validated_against_impl': len(cases), 'disagreements_checked': len(fails),
